@@ -14,13 +14,13 @@ LEVEL_TEXT = ('Lean 4 theorems: Noll j -> (n, m) is valid (|m| <= n, n-|m| even,
               'onto the valid (n, m) (explicit inverse, both round trips, all j >= 1); the literal list-and-negative-index code of '
               'zernike_index equals the closed form for every j >= 1 (and the row search ceil((-1+sqrt(1+8j))/2)-1 is the Noll row in exact real arithmetic; its float evaluation is compared for every j <= 861); R_n^m(1) = 1 for all n <= 40 and the radial '
               'parts are orthogonal with norm 1/(2(n+1)) for all n, n\' <= 20 (exact rational tables, decide +kernel); Noll\'s constants '
-              'sqrt(n+1), sqrt(2) give unit mean square given the angular integrals; the default origin is the mask centroid (first '
+              'sqrt(n+1), sqrt(2) give unit mean square (angular integrals of 1, cos^2(m theta), sin^2(m theta) over a period evaluated in Mathlib); the default origin is the mask centroid (first '
               'moments vanish) for any parity/position; rho = 1 at the farthest masked sample and <= 1 on the mask; values vanish '
               'outside the mask and depend on the mask only through its support. PARTIAL: |Z| <= 1 without normalisation and the '
-              'angular integrals are not proved; the Gram table stops at n = 20 (first 231 modes).')
+              'azimuthal cross-orthogonality (different m, cos vs sin) are not proved; the radial Gram table stops at n = 20 (first 231 modes).')
 LEVEL_NOTE = ('Trusted: Lean kernel, float sqrt/cos/sin/atan2 (model run at Float, tolerance 1e-9 x coefficient scale), NumPy semantics of '
               'np.angle/np.abs/np.max as modelled, generator coverage. Unproven clauses: |Z| <= 1 unnormalised (sampled by the oracle); '
-              'angular integrals of cos^2/sin^2/cos.sin over a period (textbook, used as given); radial orthogonality beyond n = 20; '
+              'azimuthal orthogonality between different m and between cos/sin of equal m (integrated numerically by the oracle); radial orthogonality beyond n = 20; '
               'the float sqrt/ceil row search of zernike_index beyond the sampled range of j.')
 TECHNIQUE = 'Lean 4 proof (omega/induction, decide +kernel exact rational tables) + hand model with differential correspondence'
 GEN = []
@@ -30,11 +30,11 @@ RULE = ('cases: every Noll index 1..861 (all 41 rows n <= 40) against zernike_in
         'normalisations and non-boolean masks; Gauss-Legendre x uniform-angle quadrature of products of modes j, j\' <= 66 (orthonormality '
         'of the real functions); zernike_coordinates on random masks (even/odd sizes, off-centre blobs, weights, explicit shift/rotate); '
         'distinct = canonical (kind, parameters) signature; non-trivial = n >= 2 / mask not symmetric about the array centre')
-TRUSTED = ['libm sqrt/cos/sin/atan2 agree with NumPy to 1e-9', 'np.angle = atan2(imag, real), np.abs = hypot, np.max over r*mask as modelled in Model/Zernike.lean',
-           'angular integrals over a period: cos^2 and sin^2 integrate to pi, cos.sin and distinct harmonics to 0 (not re-proved)']
+TRUSTED = ['libm sqrt/cos/sin/atan2 agree with NumPy to 1e-9', 'np.angle = atan2(imag, real), np.abs = hypot, np.max over r*mask as modelled in Model/Zernike.lean']
 UNPROVEN = ['|Z_j| <= 1 on the unit disk without normalisation (needs |R_n^m| <= 1 on [0,1]); sampled by the oracle on dyadic nodes',
             'radial orthogonality for 20 < n <= 40 (the exact table checks in Lean but takes ~5 min; not part of the registered build)',
-            'angular integrals (textbook facts used by normalisation_constants as hypotheses)']
+            'vanishing cross products of modes with different azimuthal order, or cos vs sin of the same order (integral of cos(m t)cos(m\' t), cos(m t)sin(m t) over a period = 0): '
+            'not proved; the oracle integrates products of the real modes j, j\' <= 66 by exact Gauss-Legendre x uniform-angle quadrature']
 ASSUMPTIONS = ['the quantifier "all Noll indices up to a large bound" is carried for all j >= 1 on the index map and for n <= 40 (j <= 861) on the '
                'radial tables; beyond n = 40 the float evaluation of R cancels catastrophically',
                'azimuthal convention as coded: even j -> cos(m theta), odd j -> sin(m theta) with m < 0 (i.e. -sin(|m| theta))']
